@@ -265,8 +265,10 @@ def starOkR : Str → Bool
       | [] => true
     else starOkR r
 
-/-- a run of three or more `*` (no documented meaning) -/
-def noTripleStar (p : Str) : Bool := !decide (['*', '*', '*'] <:+: p)
+/-- no run of three or more `*` (no documented meaning) -/
+def noTripleStar : Str → Bool
+  | [] => true
+  | c :: r => !(c == '*' && hd r == '*' && hd r.tail == '*') && noTripleStar r
 
 /-- a pattern that ends with a separator tested against a regular file: the canonical pattern must not
     end with `*` or consist of the root only -/
